@@ -163,6 +163,28 @@ def run(chk, replay=None):
         if any(len(c) == 0 for c in cats_abs) or len(obs_abs) == 0 or any(tot_c[e[0]] == 0 for e in obs_abs) or \
                 len(obs_abs) != len({tuple(e) for e in obs_abs}):
             chk.nontrivial('%s|%s' % (cats_abs, obs_abs))
+    # the number test describes the synthetic catalogs as they are when it is called: evaluate, let the user filter the
+    # in-memory catalogs in place (a re-evaluation at a higher magnitude threshold), evaluate again
+    for ci in range(0, len(cases), 97 if quick else 23):
+        cats_abs, obs_abs = cases[ci]['cats'], cases[ci]['obs']
+        if not any(e[1] == 1 for c in cats_abs for e in c):
+            continue
+        fcst = build_forecast(world, {'src': 'list', 'filt': False, 'spat': False}, to_cats(cats_abs), path)
+        obs = obs_catalog(obs_abs)
+        with contextlib.redirect_stdout(io.StringIO()):
+            first = guarded_timeout(30, ce.number_test, fcst, obs, verbose=False)
+            for c in fcst.catalogs:
+                c.filter('magnitude >= 5.0')
+            second = guarded_timeout(30, ce.number_test, fcst, obs, verbose=False)
+        chk.count(2)
+        want1 = [len(c) for c in cats_abs]
+        want2 = [sum(1 for e in c if e[1] == 2) for c in cats_abs]
+        for tag, r_, want in (('first', first, want1), ('after in-place filtering', second, want2)):
+            if isinstance(r_, Raised) or [int(x) for x in r_.test_distribution] != want:
+                chk.violation('n:re-evaluation:%s' % tag, {'cats': cats_abs, 'expected_sizes': want,
+                              'got': repr(r_) if isinstance(r_, Raised) else [int(x) for x in r_.test_distribution]})
+                break
+        chk.nontrivial('reeval|%s' % cats_abs)
     # random larger forecasts
     for t in range(6 if quick else 60):
         J = rng.choice([5, 30, 200])
